@@ -32,6 +32,9 @@ Inductive step :=
 | SPub (n : nat)       (* _N = ...;  the cached member is assigned     *)
 | SRet0.               (* return 0;                                    *)
 
+(* scratch members (_bDual, _cDual): written and read inside one _need body, never trusted from one call to the next *)
+Inductive sev := SW (cell : nat) | SR (cell : nat).
+
 Record body := { b_guard : option nat; b_params : list nat; b_steps : list (pc * step) }.
 Record delfn := { d_own : option mem; d_calls : list nat; d_frees : list nat }.
 Record setter := { s_writes : list mem; s_resets : list nat }.
